@@ -13,7 +13,7 @@ CONSTANTS
   Bounded = TRUE
   AllowDirect = TRUE
   AllowAbort = FALSE
-  MaxLeft = 1
+  MaxLeft = 2
   GenDepth = 24
 INVARIANTS Emit RedirectExactly RecordTruth NoRecordOtherwise AgentUntouched
 CHECK_DEADLOCK FALSE
